@@ -70,7 +70,11 @@ pub fn prop(id: &str) -> (ScreenProp, u64, u64) {
             (
                 ScreenProp {
                     id: "C03",
-                    opts: vec![("single-bar", single.clone(), 3), ("multi", multi, 5), ("multi-exhausted-limiter", limited, 3), ("single-exhausted-limiter", {
+                    opts: vec![("single-bar", single.clone(), 3), ("multi", multi.clone(), 5), ("multi-exhausted-limiter", limited, 3), ("multi-bottom-alignment", {
+                        let mut b = multi;
+                        b.bottom = true;
+                        b
+                    }, 2), ("single-exhausted-limiter", {
                         let mut l = single;
                         l.hz = vec![Some(1), Some(1), Some(3)];
                         l.exhaust = true;
@@ -198,12 +202,12 @@ pub const MULTI_RULES: &[&str] = &[
 
 pub fn run(id: &str, cfg: &RunCfg) -> PropResult {
     let (p, quick, thorough) = prop(id);
-    let report = if let Some(case) = cfg.case.as_ref().filter(|c| c.starts_with('u') || c.starts_with('k') || c.starts_with('v')) {
+    let report = if let Some(case) = cfg.case.as_ref().filter(|c| c.starts_with('u') || c.starts_with('k') || c.starts_with('v') || c.starts_with('i')) {
         let mut it = case[1..].split(':');
         let seed: u64 = it.next().and_then(|s| s.parse().ok()).unwrap_or(cfg.seed);
         let idx: u64 = it.next().and_then(|s| s.parse().ok()).unwrap_or(0);
         let mut r = crate::report::Report::default();
-        r.add(idx, if case.starts_with('u') { super::racelanes::suspend_race_case(seed, idx) } else if case.starts_with('v') { super::racelanes::move_cursor_finish_case(seed, idx) } else { super::racelanes::ticker_race_case(seed, idx) });
+        r.add(idx, if case.starts_with('u') { super::racelanes::suspend_race_case(seed, idx) } else if case.starts_with('v') { super::racelanes::move_cursor_finish_case(seed, idx) } else if case.starts_with('i') { super::racelanes::iter_finish_case(seed, idx) } else { super::racelanes::ticker_race_case(seed, idx) });
         r
     } else if let Some(case) = cfg.case.as_ref().filter(|c| c.starts_with('c')) {
         let mut it = case[1..].split(':');
@@ -236,6 +240,8 @@ pub fn run(id: &str, cfg: &RunCfg) -> PropResult {
             // configuration part: the one finishing history the move-cursor mode supports without residue
             let nv = if cfg.thorough { 400_000 } else { 6_000 };
             r.merge(crate::report::run_parallel_tagged('v', nv, workers(), |i| super::racelanes::move_cursor_finish_case(cfg.seed, i)));
+            let ni = if cfg.thorough { 200_000 } else { 4_000 };
+            r.merge(crate::report::run_parallel_tagged('i', ni, workers(), |i| super::racelanes::iter_finish_case(cfg.seed, i)));
         }
         if id == "C01" {
             // schedule part: a steady-tick thread parked in front of a lock request while the bar is finished
